@@ -121,7 +121,7 @@ fn dec_vi(b: &[u8], pos: &mut usize) -> Option<u64> {
 /// What the peer's bytes on the session stream mean, computed here from the specifications
 /// (independently of the library): Some(Ok((code, reason))) = session closed by the application,
 /// Some(Err(())) = protocol failure, None = no verdict (shape outside this reader, or still open).
-fn session_meaning(mode: u64, bytes: &[u8]) -> Option<Result<(u64, Vec<u8>), ()>> {
+pub fn session_meaning(mode: u64, bytes: &[u8]) -> Option<Result<(u64, Vec<u8>), ()>> {
     let mut pos = 0usize;
     while pos < bytes.len() {
         let start = pos;
